@@ -24,7 +24,9 @@ def alphabet(nx=4, safe=False, unkey=None, variant='plain'):
     xs = stubs.XS[:nx]
 
     def add(args, kw, recv, cls, kind='ok'):
-        if variant == 'mixed':
+        if variant == 'eqtypes':
+            val = stubs._evalue(recv[0])
+        elif variant == 'mixed':
             val = stubs._mvalue(recv[0])
         elif variant == 'long':
             val = stubs._lvalue(recv[0])
@@ -43,6 +45,15 @@ def alphabet(nx=4, safe=False, unkey=None, variant='plain'):
         add((1, 0), {}, (1, 0), (1, 0))
         add((), {'x': 2}, (2, 0), (2, 0))
         add((), {'y': 0, 'x': 1}, (1, 0), (1, 0))
+        add((7,), {}, (7, 0), (7, 0), 'raise')
+        add((8,), {}, (8, 0), (8, 0), 'raise')
+    elif variant == 'eqtypes':    # 1, 1.0, True, ...: equal values of different types are DIFFERENT calls for a keymap that keeps types
+        es = stubs.EQTYPES[:nx]
+        for n, x in enumerate(es):
+            add((x,), {}, (x, 0), (n, 'e'))
+        add((es[0], 0), {}, (es[0], 0), (0, 'e'))
+        add((), {'x': es[1]}, (es[1], 0), (1, 'e'))
+        add((), {'y': 0, 'x': es[0]}, (es[0], 0), (0, 'e'))
         add((7,), {}, (7, 0), (7, 0), 'raise')
         add((8,), {}, (8, 0), (8, 0), 'raise')
     elif variant == 'mixed':      # values of mutually unorderable types in one position
@@ -203,7 +214,7 @@ class Recorder(object):
                 unkey = stubs.BAD_BY_KIND.get(kind, stubs.BadRepr)()
         self.variant = cfg.get('variant', 'plain')
         self.args = alphabet(cfg.get('nx', 4), self.safe, unkey, self.variant)
-        self.funcs = {'plain': stubs.FUNCS, 'mixed': stubs.MFUNCS, 'long': stubs.LFUNCS, 'ignore_w': stubs.WFUNCS, 'frac': stubs.QFUNCS, 'ignore_y': stubs.GFUNCS, 'ignore_1': stubs.GFUNCS, 'tol0': stubs.HFUNCS,
+        self.funcs = {'plain': stubs.FUNCS, 'eqtypes': stubs.EFUNCS, 'mixed': stubs.MFUNCS, 'long': stubs.LFUNCS, 'ignore_w': stubs.WFUNCS, 'frac': stubs.QFUNCS, 'ignore_y': stubs.GFUNCS, 'ignore_1': stubs.GFUNCS, 'tol0': stubs.HFUNCS,
                       'tol1': stubs.TFUNCS}[self.variant]
         self.ni = cfg.get('ni', 1)
         self.na = cfg.get('na', 2)
